@@ -488,6 +488,27 @@ def _recognise_postfix(tags, guard, gop, body, params, table):
         br = _recognise_chain(tags, guard, gop, body, params, table)
         if br is not None:
             return br
+        # no loop: a branch that decides by the *class* of what stands to the
+        # left whether it continues a chain cannot tell  (a < b) < c  -- a
+        # comparison whose left operand is a parenthesised comparison -- from
+        # a < b < c: the parentheses are gone by the time the tree is looked at
+        for st in body:
+            for c in ast.walk(st):
+                if isinstance(c, ast.Call) and ast.unparse(c.func) == \
+                        "isinstance" and len(c.args) == 2 and \
+                        ast.unparse(c.args[0]).split(".")[0] == "left_exp" and \
+                        {"Comparison", "LogicalAnd"} & {
+                            x.id if isinstance(x, ast.Name) else x.attr
+                            for x in ast.walk(c.args[1])
+                            if isinstance(x, (ast.Name, ast.Attribute))}:
+                    raise ModelViolation(
+                        "T/parser/comparison-chain/decided-by-tokens",
+                        f"pymbolic/parser.py:{c.lineno}",
+                        "the comparison branch continues a chain when the "
+                        "left operand *is* a comparison "
+                        f"({ast.unparse(c)}): '(a < b) < c' is then read as "
+                        "(a < b) and (b < c) -- what was parsed in parentheses "
+                        "is indistinguishable from the links read so far")
     wrapped = _wrap(body, params, "left_exp")
     pss = [ps for ps in summarize(wrapped, node_param=False)
            if ps.term == "return"]
